@@ -304,6 +304,36 @@ def run_indep(case, drv, g, names, nodes, lat, include_latents):
     return None
 
 
+def check_multi_start(g, names, nodes, edges, lat, rng, drv, tags):
+    """active_trail_nodes with a LIST of start variables: every entry of the returned dict must be the
+    answer for that start alone (the searches must not share visited state)"""
+    n = len(names)
+    if n < 2:
+        return None
+    idx = {repr(nm): i for i, nm in enumerate(names)}
+    for _ in range(3):
+        k = rng.randint(2, min(4, n))
+        starts = rng.sample(range(n), k)
+        rest = [v for v in range(n) if v not in starts]
+        Z = rng.sample(rest, rng.randint(0, len(rest)))
+        incl = rng.random() < 0.5
+        got = g.active_trail_nodes([names[s] for s in starts], observed=[names[z] for z in Z],
+                                   include_latents=incl)
+        if sorted(repr(k_) for k_ in got) != sorted(repr(names[s]) for s in starts):
+            return bad("impl!=model:active_trail_nodes-multi-keys", {"starts": starts, "impl_keys": [repr(k_) for k_ in got]})
+        for s_ in starts:
+            exp = model_atn(drv, nodes, edges, s_, Z)
+            if not incl:
+                exp = exp - set(lat)
+            have = {idx[repr(x)] for x in got[names[s_]]}
+            if have != exp:
+                return bad("impl!=model:active_trail_nodes-multi-start",
+                           {"starts": starts, "start": s_, "Z": sorted(Z), "include_latents": incl,
+                            "impl": sorted(have), "model": sorted(exp), "lat": sorted(lat)})
+        tags.append("multi-start=%d" % k)
+    return None
+
+
 def run_rand(case, drv):
     g, names, nodes = build(case)
     n = case["n"]
@@ -329,6 +359,9 @@ def run_rand(case, drv):
             if d != (end in exp):
                 return bad("impl!=model:is_dconnected", {"start": start, "end": end, "Z": Z, "impl": d,
                                                            "model": end in exp, "lat": lat})
+    b = check_multi_start(g, names, nodes, edges, lat, rng, drv, tags)
+    if b:
+        return b
     if n <= 7:
         b = run_minsep(case, drv, g, names, nodes, lat)
         if b:
